@@ -54,9 +54,16 @@ def inputs():
         # eleven tasks (two-digit positions), one of them a container: rows must stay in declaration order
         "eleven": render.render({"resources": R, "tasks": [T(f"t{i:02d}", 30 + 10 * i, "r1" if i % 2 else "r2") for i in range(1, 10)]
                                  + [{"id": "grp", "children": [T("x", 40), T("y", 20, "r2")]}]}).encode(),
+        # the same task id stated twice (a copy-pasted block), at the top level and inside a container: if the project is accepted at
+        # all, the report lists every task of the project, in declaration order
+        "dup-ids": render.render({"resources": R, "tasks": [T("a", 90), T("b", 60, deps=["a"]), T("a", 45, "r2", name="a again"),
+                                                            {"id": "g", "children": [T("x", 30), T("x", 20, "r2", name="x again")]}]}).encode(),
         "utf8": render.render({"resources": [{"id": "r1", "name": "Zoë Müller"}], "tasks": [T("a", 90, name="Grüße – 設計"), T("b", 30, deps=["a"], name="naïve")]}).encode("utf-8"),
     }
     return out
+
+
+OPTIONAL = ("dup-ids",)
 
 
 def bad_inputs():
@@ -134,6 +141,11 @@ def run(ctx):
     ins = inputs()
     names = list(ins)
     api = dict(zip(names, pool.map("mc.props.c19:api_rows", [ins[n] for n in names], timeout=120)))
+    # inputs that a tree may legitimately refuse (duplicate ids): judged only where the parser accepts them
+    for n in OPTIONAL:
+        if "rows" not in api[n] and api[n]["error"][0] == "parse":
+            names.remove(n)
+            st.skipped += 1
     # base runs
     base_jobs, meta = [], []
     flagsets = [[]] if ctx.tier == "quick" else [[], ["--verbose"], ["--quiet"]]
